@@ -341,3 +341,33 @@ func embedsPooledState(c *Ctx, fn *ssa.Function, obj ssa.Value, fld *types.Var, 
 
 var _ = sort.Strings
 var _ = strings.Join
+
+var lockSpecs = []guardSpec{
+	{Pkg: "mpx", Type: "server", Mutex: "mu", Fields: []string{"ln"},
+		Reason: "closeListener clears the listener under the mutex while the serve goroutine runs"},
+	{Pkg: "mpx", Type: "client", Mutex: "mu", Fields: []string{"connecting", "connectAttempt"},
+		Calls:  []string{"conns.Store", "connected_.Set", "connected_.Unset", "disconnected_.Set", "disconnected_.Unset", "closed_.Set"},
+		Reason: "connection list, dial routine and flags are updated together; readers use the lock-free conns.Load / flag reads"},
+	{Pkg: "rpc", Type: "channelState", Mutex: "sendMu", Fields: []string{"sendReq", "sendEnd"},
+		Exempt: map[string]string{"reset": "release path: exclusive after the reference count reached zero (R18.3)"},
+		Reason: "send state of one call is shared by concurrent Send/SendEnd/Free"},
+	{Pkg: "rpc", Type: "channelState", Mutex: "recvMu", Fields: []string{"recvEnd", "recvResp", "recvFailed", "recvError", "result", "resultOK", "resultSt"},
+		Exempt: map[string]string{"reset": "release path: exclusive after the reference count reached zero (R18.3)"},
+		Reason: "receive state of one call is shared by concurrent Receive/Response"},
+	{Pkg: "rpc", Type: "serverChannelState", Mutex: "sendMu", Fields: []string{"sendReq", "sendEnd"},
+		Exempt: map[string]string{"reset": "release path: exclusive after the reference count reached zero (R18.3)"},
+		Reason: "send state of one server call"},
+	{Pkg: "rpc", Type: "serverChannelState", Mutex: "recvMu", Fields: []string{"recvEnd", "recvFailed", "recvError"},
+		Exempt: map[string]string{"reset": "release path: exclusive after the reference count reached zero (R18.3)"},
+		Reason: "receive state of one server call"},
+}
+
+func init() {
+	register(&Rule{ID: "R18.2", Props: []string{"C18", "C19"}, Floor: 30,
+		Doc: "lockset: every access in the frozen guarded-by table (server.ln; client.connecting/connectAttempt/conns.Store/flag updates; rpc send*/recv* state) happens with its mutex held on every path from every entry point",
+		Run: func(c *Ctx, r *R) {
+			for _, sp := range lockSpecs {
+				runLockset(c, r, sp)
+			}
+		}})
+}
